@@ -1,4 +1,5 @@
 (* TermFacts.v — facts about the term state machine of Term.v that hold for every input (C07, C08, C09, C10). *)
+From Coq Require Import Permutation.
 From LH Require Import Prims Quorum QuorumFacts Leader Contexts Msg Term.
 Open Scope N_scope.
 
@@ -1075,3 +1076,438 @@ Lemma others_never_prepare c wm shut x :
   (forall r s, no_new_mp x (handle_p c wm shut x r s)) /\ (forall r s o, no_new_mp x (handle_c c wm shut x r s o)) /\
   (forall vt b, no_new_mp x (handle_vc c wm shut x vt b)) /\ (forall h v, no_new_mp x (move_to_next_leader c wm shut x h v)).
 Proof. split; [|split; [|split]]; intros. apply handle_p_nomp. apply handle_c_nomp. apply handle_vc_nomp. apply move_nomp. Qed.
+
+(* ====================================================================================================
+   Storage invariant: everything the term has stored is verified, role-correct and consistent (C09, C11)
+   ==================================================================================================== *)
+Section StorageInv.
+Variable c : ncfg.
+
+Definition blk_commits (H : N) (e : ppent) : Prop :=
+  forall b, pe_blk e = Some b -> commitsTo H (Some b) (r_hash (pe_ref e)) = true.
+
+Record pp_good (t : tstate) (v : N) (e : ppent) : Prop := {
+  pg_view : r_view (pe_ref e) = v;
+  pg_type : r_type (pe_ref e) = T_PREPREPARE;
+  pg_inst : r_inst (pe_ref e) = c_inst c;
+  pg_height : r_height (pe_ref e) = t_h t;
+  pg_sig : s_ok (pe_snd e) = true;
+  pg_leader : s_id (pe_snd e) = leaderOf (t_cm t) v;
+  pg_blk : blk_commits (t_h t) e
+}.
+
+Definition p_good (t : tstate) (v : N) (s : ssig) : Prop :=
+  s_ok s = true /\ isMember (t_cm t) (s_id s) = true /\ s_id s <> leaderOf (t_cm t) v.
+
+Definition vc_good (t : tstate) (v : N) (vt : vote) (b : option block) : Prop :=
+  v_view vt = v /\ v_height vt = t_h t /\ vote_spec c (t_cm t) (t_h t) v vt /\
+  match b, v_proof vt with
+  | None, None => True
+  | Some bb, Some p => commitsTo (t_h t) b (r_hash (pf_ppref p)) = true
+  | _, _ => False
+  end.
+
+Record SInv (x : tc) : Prop := {
+  si_pp : forall v e, get_pp (tc_t x) v = Some e -> pp_good (tc_t x) v e /\ v <= tc_v x;
+  si_p : forall v h s, In (v, h, s) (t_p (tc_t x)) -> p_good (tc_t x) v s;
+  si_p_nodup : forall v h, NoDup (map s_id (bucket (t_p (tc_t x)) v h));
+  si_prep : forall pv, t_prepared (tc_t x) = Some pv ->
+      exists e b, get_pp (tc_t x) pv = Some e /\ pe_blk e = Some b /\
+        bucket (t_p (tc_t x)) pv (r_hash (pe_ref e)) <> [] /\
+        isQ_ids (t_cm (tc_t x)) (map s_id (bucket (t_p (tc_t x)) pv (r_hash (pe_ref e))) ++ [s_id (pe_snd e)]) = true;
+  si_vc : forall v vt b, In (v, (vt, b)) (t_vc (tc_t x)) -> vc_good (tc_t x) v vt b;
+  si_me : isMember (t_cm (tc_t x)) (c_me c) = true;
+  si_total : total (t_cm (tc_t x)) < W64
+}.
+
+Lemma In_bucket l v h s : In s (bucket l v h) <-> In (v, h, s) l.
+Proof.
+  unfold bucket. rewrite in_map_iff. split.
+  - intros [[[v' h'] s'] [E Hi]]. cbn in E. subst s'. apply filter_In in Hi. destruct Hi as [Hi Hc].
+    cbn [fst snd] in Hc. rewrite andb_true_iff, !N.eqb_eq in Hc. destruct Hc; subst. exact Hi.
+  - intro Hi. exists (v, h, s). split; [reflexivity|]. apply filter_In. split; [exact Hi|].
+    cbn [fst snd]. rewrite !N.eqb_refl. reflexivity.
+Qed.
+
+Lemma In_store_in l v h s v' h' s' : In (v', h', s') (store_in l v h s) -> In (v', h', s') l \/ (v', h', s') = (v, h, s).
+Proof. unfold store_in. destruct (memN _ _); [auto|]. intro Hi. apply in_app_or in Hi. destruct Hi as [Hi|[Hi|[]]]; auto. Qed.
+
+Lemma bucket_store_in_other l v h s v' h' : (v', h') <> (v, h) -> bucket (store_in l v h s) v' h' = bucket l v' h'.
+Proof.
+  intro Hne. unfold store_in. destruct (memN _ _); [reflexivity|]. unfold bucket. rewrite filter_app, map_app. cbn [filter fst snd].
+  destruct (N.eqb_spec v v'); destruct (N.eqb_spec h h'); cbn [andb map]; try apply app_nil_r. subst. congruence.
+Qed.
+
+Lemma bucket_store_in_same l v h s :
+  bucket (store_in l v h s) v h = if memN (s_id s) (map s_id (bucket l v h)) then bucket l v h else bucket l v h ++ [s].
+Proof.
+  unfold store_in. destruct (memN _ _); [reflexivity|]. unfold bucket at 1. rewrite filter_app, map_app. cbn [filter fst snd].
+  rewrite !N.eqb_refl. reflexivity.
+Qed.
+
+Lemma NoDup_app_one {A} (l : list A) a : NoDup l -> ~ In a l -> NoDup (l ++ [a]).
+Proof.
+  induction l as [|x r IH]; cbn; intros ND Hn; [constructor; [intros []|constructor]|].
+  inversion ND; subst. constructor.
+  - intro Hi. apply in_app_or in Hi. destruct Hi as [Hi|[Hi|[]]]; [contradiction|]. apply Hn. left. symmetry; exact Hi.
+  - apply IH; [assumption|]. intro Hi. apply Hn. right. exact Hi.
+Qed.
+
+Lemma nodup_bucket_store_in l v h s v' h' :
+  NoDup (map s_id (bucket l v' h')) -> NoDup (map s_id (bucket (store_in l v h s) v' h')).
+Proof.
+  intro ND. destruct (N.eq_dec v' v) as [->|Nv]; [destruct (N.eq_dec h' h) as [->|Nh]|].
+  - rewrite bucket_store_in_same. destruct (memN (s_id s) _) eqn:Em; [exact ND|].
+    rewrite map_app. cbn [map]. apply NoDup_app_one; [exact ND|]. apply memN_false_In. exact Em.
+  - rewrite bucket_store_in_other by congruence. exact ND.
+  - rewrite bucket_store_in_other by congruence. exact ND.
+Qed.
+End StorageInv.
+
+Section StorageInvProofs.
+Variable c : ncfg.
+Variable wm : option hv.
+Variable shut : bool.
+
+(* sort_by is a permutation *)
+Lemma insert_by_perm {A} (key : A -> N) a l : Permutation (insert_by key a l) (a :: l).
+Proof.
+  induction l as [|y r IH]; cbn [insert_by]; [apply Permutation_refl|].
+  destruct (N.leb (key a) (key y)); [apply Permutation_refl|].
+  eapply Permutation_trans; [apply perm_skip; exact IH|apply perm_swap].
+Qed.
+Lemma sort_by_perm {A} (key : A -> N) l : Permutation (sort_by key l) l.
+Proof.
+  unfold sort_by. induction l as [|a r IH]; cbn [fold_right]; [apply Permutation_refl|].
+  eapply Permutation_trans; [apply insert_by_perm|apply perm_skip; exact IH].
+Qed.
+
+(* SInv only looks at the proposal / prepare / vote storage, the prepared flag, height, committee and the view *)
+Definition storage_eq (t t' : tstate) : Prop :=
+  t_pp t' = t_pp t /\ t_p t' = t_p t /\ t_vc t' = t_vc t /\ t_prepared t' = t_prepared t /\ t_h t' = t_h t /\ t_cm t' = t_cm t.
+
+Lemma get_pp_ext t t' v : t_pp t' = t_pp t -> get_pp t' v = get_pp t v.
+Proof. intro E. unfold get_pp. rewrite E. reflexivity. Qed.
+
+Lemma pp_good_ext t t' v e : t_h t' = t_h t -> t_cm t' = t_cm t -> pp_good c t v e -> pp_good c t' v e.
+Proof. intros Eh Ec [A1 A2 A3 A4 A5 A6 A7]. constructor; auto; try congruence. unfold blk_commits in *. rewrite Eh. exact A7. Qed.
+
+Lemma SInv_storage_eq x t' : SInv c x -> storage_eq (tc_t x) t' -> SInv c (tc_set_t t' x).
+Proof.
+  intros [H1 H2 H3 H4 H5 H6 H7] (E1 & E2 & E3 & E4 & E5 & E6).
+  constructor; cbn [tc_set_t tc_t tc_v]; rewrite ?E2, ?E3, ?E4, ?E5, ?E6; auto.
+  - intros v e He. rewrite (get_pp_ext _ _ _ E1) in He. destruct (H1 v e He) as [G L]. split; [|exact L].
+    eapply pp_good_ext; eauto.
+  - intros v h s Hi. destruct (H2 v h s Hi) as (A & B & C). unfold p_good. rewrite E6. auto.
+  - intros pv Hp. destruct (H4 pv Hp) as (e & b & G1 & G2 & G3 & G4). exists e, b. rewrite (get_pp_ext _ _ _ E1). auto.
+  - intros v vt b Hi. destruct (H5 v vt b Hi) as (A & B & C & D). unfold vc_good. rewrite E5, E6. auto.
+Qed.
+
+Lemma SInv_emit x o : SInv c x -> SInv c (tc_emit o x).
+Proof. intros [H1 H2 H3 H4 H5 H6 H7]. constructor; auto. Qed.
+Lemma SInv_bump x : SInv c x -> SInv c (tc_bump x).
+Proof. intros [H1 H2 H3 H4 H5 H6 H7]. constructor; auto. Qed.
+Lemma SInv_committed x b : SInv c x -> SInv c (tc_committed b x).
+Proof. intros [H1 H2 H3 H4 H5 H6 H7]. constructor; auto. Qed.
+Lemma SInv_set_v x v : tc_v x <= v -> SInv c x -> SInv c (tc_set_v v x).
+Proof.
+  intros L [H1 H2 H3 H4 H5 H6 H7]. constructor; cbn [tc_set_v tc_t tc_v]; auto.
+  intros v' e He. destruct (H1 v' e He) as [G L']. split; [exact G|lia].
+Qed.
+
+Lemma SInv_store_c x v h s : SInv c x -> SInv c (tc_set_t (store_c v h s (tc_t x)) x).
+Proof. intro I. apply SInv_storage_eq; [exact I|]. repeat split; reflexivity. Qed.
+Lemma SInv_set_committed x : SInv c x -> SInv c (tc_set_t (set_committed (tc_t x)) x).
+Proof. intro I. apply SInv_storage_eq; [exact I|]. repeat split; reflexivity. Qed.
+Lemma SInv_set_latest x v : SInv c x -> SInv c (tc_set_t (set_latest v (tc_t x)) x).
+Proof. intro I. apply SInv_storage_eq; [exact I|]. repeat split; reflexivity. Qed.
+
+Lemma SInv_store_p x v h s : SInv c x -> p_good (tc_t x) v s -> SInv c (tc_set_t (store_p v h s (tc_t x)) x).
+Proof.
+  intros [H1 H2 H3 H4 H5 H6 H7] G. constructor; cbn [tc_set_t tc_t tc_v store_p t_p t_cm t_h t_prepared t_vc]; auto.
+  - intros v' e He. destruct (H1 v' e He) as [A L]. split; [|exact L]. eapply pp_good_ext; [| |exact A]; reflexivity.
+  - intros v' h' s' Hi. apply In_store_in in Hi. destruct Hi as [Hi|E]; [exact (H2 _ _ _ Hi)|inversion E; subst; exact G].
+  - intros v' h'. apply nodup_bucket_store_in. apply H3.
+  - intros pv Hp. destruct (H4 pv Hp) as (e & b & G1 & G2 & G3 & G4). exists e, b. split; [exact G1|]. split; [exact G2|].
+    pose proof (bucket_store_in_incl (t_p (tc_t x)) v h s pv (r_hash (pe_ref e))) as Hincl. split.
+    + intro E. destruct (bucket (t_p (tc_t x)) pv (r_hash (pe_ref e))) as [|a l] eqn:Eb; [congruence|].
+      specialize (Hincl a (or_introl eq_refl)). rewrite E in Hincl. exact Hincl.
+    + eapply isQ_ids_mono; [exact H7| |exact G4]. apply incl_app; [apply incl_appl, incl_map, Hincl|apply incl_appr, incl_refl].
+Qed.
+
+Lemma SInv_store_pp x v e : SInv c x -> pp_good c (tc_t x) v e -> v <= tc_v x -> SInv c (tc_set_t (store_pp v e (tc_t x)) x).
+Proof.
+  intros I G L. destruct (get_pp (tc_t x) v) as [e0|] eqn:En.
+  - replace (store_pp v e (tc_t x)) with (tc_t x) by (unfold store_pp; rewrite En; reflexivity).
+    destruct x; exact I.
+  - destruct I as [H1 H2 H3 H4 H5 H6 H7].
+    assert (Es : store_pp v e (tc_t x) = {| t_h := t_h (tc_t x); t_cm := t_cm (tc_t x); t_pp := t_pp (tc_t x) ++ [(v, e)]; t_p := t_p (tc_t x); t_c := t_c (tc_t x);
+                 t_vc := t_vc (tc_t x); t_prepared := t_prepared (tc_t x); t_latest := t_latest (tc_t x); t_committed := t_committed (tc_t x) |})
+      by (unfold store_pp; rewrite En; reflexivity).
+    assert (Eg : forall v', get_pp (store_pp v e (tc_t x)) v' = if N.eqb v' v then Some e else get_pp (tc_t x) v')
+      by (intro v'; rewrite get_pp_store_pp, En; reflexivity).
+    constructor; cbn [tc_set_t tc_t tc_v]; rewrite ?Es; cbn [t_p t_cm t_h t_prepared t_vc]; auto.
+    + intros v' e' He. rewrite <- Es, Eg in He. destruct (N.eqb_spec v' v) as [->|].
+      * inversion He; subst. split; [|exact L]. eapply pp_good_ext; [| |exact G]; reflexivity.
+      * destruct (H1 v' e' He) as [A L']. split; [|exact L']. eapply pp_good_ext; [| |exact A]; reflexivity.
+    + intros pv Hp. destruct (H4 pv Hp) as (e' & b & G1 & G2 & G3 & G4). exists e', b. rewrite <- Es, Eg.
+      destruct (N.eqb_spec pv v) as [->|]; [congruence|]. auto.
+Qed.
+
+Lemma SInv_store_vc x v vt b : SInv c x -> vc_good c (tc_t x) v vt b -> SInv c (tc_set_t (store_vc v vt b (tc_t x)) x).
+Proof.
+  intros I G. unfold store_vc. destruct (memN _ _); [destruct x; exact I|].
+  destruct I as [H1 H2 H3 H4 H5 H6 H7]. constructor; cbn [tc_set_t tc_t tc_v t_p t_cm t_h t_prepared t_vc]; auto.
+  - intros v' e He. destruct (H1 v' e He) as [A L]. split; [|exact L]. eapply pp_good_ext; [| |exact A]; reflexivity.
+  - intros v' vt' b' Hi. apply in_app_or in Hi. destruct Hi as [Hi|[E|[]]]; [exact (H5 _ _ _ Hi)|inversion E; subst; exact G].
+Qed.
+
+Lemma SInv_set_prepared x v : SInv c x ->
+  (exists e b, get_pp (tc_t x) v = Some e /\ pe_blk e = Some b /\ bucket (t_p (tc_t x)) v (r_hash (pe_ref e)) <> [] /\
+     isQ_ids (t_cm (tc_t x)) (map s_id (bucket (t_p (tc_t x)) v (r_hash (pe_ref e))) ++ [s_id (pe_snd e)]) = true) ->
+  SInv c (tc_set_t (set_prepared v (tc_t x)) x).
+Proof.
+  intros [H1 H2 H3 H4 H5 H6 H7] W. constructor; cbn [tc_set_t tc_t tc_v set_prepared t_p t_cm t_h t_prepared t_vc]; auto.
+  - intros v' e He. destruct (H1 v' e He) as [A L]. split; [|exact L]. eapply pp_good_ext; [| |exact A]; reflexivity.
+  - intros pv Hp. inversion Hp; subst. exact W.
+Qed.
+
+(* ---- handlers ---- *)
+Lemma check_committed_sinv x v h : SInv c x -> SInv c (check_committed c wm shut x v h).
+Proof.
+  intro I. unfold check_committed. destruct (t_committed (tc_t x)); [exact I|].
+  destruct (is_preprepared (tc_t x) v h) as [e|]; [|exact I].
+  destruct (negb _); [exact I|]. destruct (negb _); [exact I|]. destruct (pe_blk e); [|exact I].
+  apply SInv_committed, SInv_emit.
+  set (x1 := if memN (c_me c) _ then x else _).
+  assert (I1 : SInv c x1 /\ tc_t x1 = tc_t x) by (subst x1; destruct (memN _ _); [auto|split; [apply SInv_emit; exact I|reflexivity]]).
+  destruct I1 as [I1 E1]. rewrite <- E1. apply SInv_set_committed. exact I1.
+Qed.
+
+Lemma check_prepared_sinv x v h : SInv c x -> bucket (t_p (tc_t x)) v h <> [] -> SInv c (check_prepared c wm shut x v h).
+Proof.
+  intros I Hb. unfold check_prepared.
+  destruct (match t_prepared (tc_t x) with Some pv => pv =? v | None => false end); [exact I|].
+  destruct (is_preprepared (tc_t x) v h) as [e|] eqn:Ep; [|exact I].
+  destruct (is_preprepared_some _ _ _ _ Ep) as (G1 & G2 & b & Gb).
+  destruct (isQ_ids _ _) eqn:Eq; [|exact I].
+  apply check_committed_sinv. unfold send_all. apply SInv_emit.
+  set (x0 := if has_c _ _ _ _ then x else _).
+  assert (I0 : SInv c x0 /\ tc_t x0 = tc_t x) by (subst x0; destruct (has_c _ _ _ _); [auto|split; [apply SInv_emit; exact I|reflexivity]]).
+  destruct I0 as [I0 E0].
+  assert (Ip : SInv c (tc_set_t (set_prepared v (tc_t x0)) x0)).
+  { apply SInv_set_prepared; [exact I0|]. rewrite E0. exists e, b. rewrite G2. auto. }
+  pose proof (SInv_store_c _ v h (my_sig c) Ip) as Ic. cbn [tc_set_t tc_t] in Ic. rewrite E0 in Ic. exact Ic.
+Qed.
+
+Lemma bucket_nonempty_after_store l v h s : bucket (store_in l v h s) v h <> [].
+Proof.
+  rewrite bucket_store_in_same. destruct (memN (s_id s) (map s_id (bucket l v h))) eqn:Em.
+  - intro E. rewrite E in Em. discriminate.
+  - intro E. apply app_eq_nil in E. destruct E; discriminate.
+Qed.
+
+Lemma process_pp_sinv x r s b : SInv c x -> get_pp (tc_t x) (r_view r) = None ->
+  r_type r = T_PREPREPARE -> r_inst r = c_inst c -> r_height r = t_h (tc_t x) -> s_ok s = true ->
+  s_id s = leaderOf (t_cm (tc_t x)) (r_view r) -> s_id s <> c_me c ->
+  (forall bb, b = Some bb -> commitsTo (t_h (tc_t x)) b (r_hash r) = true) ->
+  SInv c (process_pp c wm shut x r s b).
+Proof.
+  intros I Hn Ht Hi Hh Hs Hl Hme Hb. unfold process_pp.
+  destruct (N.eqb_spec (tc_v x) (r_view r)) as [Ev|Ev]; cbn [negb]; [|exact I].
+  set (e := {| pe_ref := r; pe_snd := s; pe_blk := b |}).
+  set (t0 := store_pp (r_view r) e (tc_t x)).
+  set (x0 := if has_pp _ _ then x else _).
+  set (x0' := if has_p t0 _ _ _ then x0 else _).
+  assert (I0 : SInv c x0' /\ tc_t x0' = tc_t x /\ tc_v x0' = tc_v x).
+  { subst x0' x0. destruct (has_p _ _ _ _), (has_pp _ _); (split; [repeat apply SInv_emit; exact I|split; reflexivity]). }
+  destruct I0 as (I0 & E0t & E0v).
+  assert (G : pp_good c (tc_t x) (r_view r) e).
+  { constructor; cbn [e pe_ref pe_snd pe_blk]; auto. intros bb Ebb. rewrite <- Ebb. apply (Hb bb Ebb). }
+  assert (I1 : SInv c (tc_set_t t0 x0')).
+  { subst t0. rewrite <- E0t. apply SInv_store_pp; [exact I0|rewrite E0t; exact G|rewrite E0v; lia]. }
+  assert (Ecm : t_cm t0 = t_cm (tc_t x) /\ t_h t0 = t_h (tc_t x)) by (subst t0; destruct (store_pp_hc (r_view r) e (tc_t x)); auto).
+  assert (I2 : SInv c (tc_set_t (store_p (r_view r) (r_hash r) (my_sig c) t0) x0')).
+  { pose proof (SInv_store_p _ (r_view r) (r_hash r) (my_sig c) I1) as P. cbn [tc_set_t tc_t] in P. apply P.
+    unfold p_good. destruct Ecm as [Ec _]. rewrite Ec. cbn [my_sig s_ok s_id]. split; [reflexivity|]. split; [apply (si_me _ _ I)|].
+    rewrite <- Hl. auto. }
+  apply check_prepared_sinv.
+  - unfold send_all. apply SInv_emit. exact I2.
+  - unfold send_all. cbn [tc_emit tc_t tc_set_t store_p t_p]. apply bucket_nonempty_after_store.
+Qed.
+
+Lemma validProposal_commits me h b x : validProposal me h b x = true -> forall bb, b = Some bb -> commitsTo h b x = true.
+Proof.
+  intros H bb ->. unfold validProposal, commitsTo in *. rewrite !andb_true_iff in H. destruct H as [[_ A] B].
+  rewrite A, B. reflexivity.
+Qed.
+
+Lemma handle_pp_sinv x r s b : SInv c x -> r_height r = t_h (tc_t x) -> s_id s <> c_me c -> SInv c (handle_pp c wm shut x r s b).
+Proof.
+  intros I Hh Hme. unfold handle_pp.
+  destruct (validate_pp c (tc_t x) r s) eqn:Ev; cbn [negb]; [|exact I].
+  destruct (validate_pp_true _ _ _ _ Ev) as (V1 & V2 & V3 & V4 & V5).
+  destruct (ctx_ok wm shut _); cbn [negb]; [|exact I].
+  destruct (validProposal _ _ _ _) eqn:Evp; cbn [negb]; [|exact I].
+  apply process_pp_sinv; auto. rewrite <- Hh. apply (validProposal_commits _ _ _ _ Evp).
+Qed.
+
+Lemma handle_p_sinv x r s : SInv c x -> SInv c (handle_p c wm shut x r s).
+Proof.
+  intros I. unfold handle_p.
+  destruct (N.eqb (r_type r) T_PREPARE); cbn [negb]; [|exact I].
+  destruct (isMember _ _) eqn:Em; cbn [negb]; [|exact I].
+  destruct (s_ok s) eqn:Es; cbn [negb]; [|exact I].
+  destruct (N.ltb (r_view r) (tc_v x)); [exact I|].
+  destruct (N.eqb_spec (s_id s) (leaderOf (t_cm (tc_t x)) (r_view r))) as [|Nl]; [exact I|].
+  set (x0 := if has_p _ _ _ _ then x else _).
+  assert (I0 : SInv c x0 /\ tc_t x0 = tc_t x) by (subst x0; destruct (has_p _ _ _ _); [auto|split; [apply SInv_emit; exact I|reflexivity]]).
+  destruct I0 as [I0 E0].
+  apply check_prepared_sinv.
+  - rewrite <- E0. apply SInv_store_p; [exact I0|]. rewrite E0. repeat split; auto.
+  - cbn [tc_set_t tc_t store_p t_p]. apply bucket_nonempty_after_store.
+Qed.
+
+Lemma handle_c_sinv x r s o : SInv c x -> SInv c (handle_c c wm shut x r s o).
+Proof.
+  intros I. unfold handle_c.
+  destruct o; cbn [negb]; [|exact I].
+  destruct (N.eqb (r_type r) T_COMMIT); cbn [negb]; [|exact I].
+  destruct (isMember _ _); cbn [negb]; [|exact I].
+  destruct (s_ok s); cbn [negb]; [|exact I].
+  apply check_committed_sinv.
+  set (x0 := if has_c _ _ _ _ then x else _).
+  assert (I0 : SInv c x0 /\ tc_t x0 = tc_t x) by (subst x0; destruct (has_c _ _ _ _); [auto|split; [apply SInv_emit; exact I|reflexivity]]).
+  destruct I0 as [I0 E0]. rewrite <- E0. apply SInv_store_c. exact I0.
+Qed.
+
+(* GetLatestBlockFromViewChangeMessages: a vote of the list that carries a block and a proof of maximal view among
+   the votes that carry both; None iff no vote carries both *)
+Lemma latest_block_aux_spec vs :
+  match latest_block_aux vs with
+  | Some (vt, p, b) => In (vt, Some b) vs /\ v_proof vt = Some p /\
+       forall vt' b' q, In (vt', Some b') vs -> v_proof vt' = Some q -> r_view (pf_ppref q) <= r_view (pf_ppref p)
+  | None => forall vt' b' q, In (vt', Some b') vs -> v_proof vt' = Some q -> False
+  end.
+Proof.
+  induction vs as [|[vt ob] r IH]; cbn [latest_block_aux]; [intros ? ? ? []|].
+  destruct ob as [b|].
+  - destruct (v_proof vt) as [p|] eqn:Ep.
+    + destruct (latest_block_aux r) as [[[w q] b']|].
+      * destruct IH as (Hw & Eq & Hmax).
+        destruct (N.ltb_spec (r_view (pf_ppref p)) (r_view (pf_ppref q))).
+        -- split; [right; exact Hw|]. split; [exact Eq|]. intros vt' b'' q' [E|Hi] E'; [inversion E; subst; rewrite Ep in E'; inversion E'; subst; lia|eauto].
+        -- split; [left; reflexivity|]. split; [exact Ep|]. intros vt' b'' q' [E|Hi] E'; [inversion E; subst; rewrite Ep in E'; inversion E'; subst; lia|].
+           specialize (Hmax _ _ _ Hi E'). lia.
+      * split; [left; reflexivity|]. split; [exact Ep|]. intros vt' b'' q' [E|Hi] E'; [inversion E; subst; rewrite Ep in E'; inversion E'; subst; lia|].
+        exfalso. eapply IH; eauto.
+    + destruct (latest_block_aux r) as [[[w q] b']|].
+      * destruct IH as (Hw & Eq & Hmax). split; [right; exact Hw|]. split; [exact Eq|].
+        intros vt' b'' q' [E|Hi] E'; [inversion E; subst; congruence|eauto].
+      * intros vt' b'' q' [E|Hi] E'; [inversion E; subst; congruence|eauto].
+  - destruct (latest_block_aux r) as [[[w q] b']|].
+    + destruct IH as (Hw & Eq & Hmax). split; [right; exact Hw|]. split; [exact Eq|].
+      intros vt' b'' q' [E|Hi] E'; [inversion E|eauto].
+    + intros vt' b'' q' [E|Hi] E'; [inversion E|eauto].
+Qed.
+
+Lemma votes_of_In t v vt b : In (vt, b) (votes_of t v) -> In (v, (vt, b)) (t_vc t).
+Proof.
+  unfold votes_of. intro Hi. apply in_map_iff in Hi. destruct Hi as [[v' p] [E Hi]]. cbn in E. subst p.
+  apply filter_In in Hi. destruct Hi as [Hi Hc]. cbn in Hc. apply N.eqb_eq in Hc. subst. exact Hi.
+Qed.
+
+Lemma on_elected_sinv x v : SInv c x -> leaderOf (t_cm (tc_t x)) v = c_me c -> SInv c (on_elected c wm shut x v (votes_of (tc_t x) v)).
+Proof.
+  intros I Hl. unfold on_elected, init_view. cbn [tc_set_t tc_v].
+  assert (I0 : SInv c (tc_set_t (set_latest v (tc_t x)) x)) by (apply SInv_set_latest; exact I).
+  destruct (N.ltb_spec v (tc_v x)) as [Hv|Hv]; [exact I0|].
+  set (x1 := tc_emit _ (tc_set_v v (tc_set_t (set_latest v (tc_t x)) x))).
+  assert (I1 : SInv c x1) by (apply SInv_emit, SInv_set_v; [exact Hv|exact I0]).
+  assert (go_ok : forall b h x2, SInv c x2 -> tc_v x2 = v -> t_h (tc_t x2) = t_h (tc_t x) -> t_cm (tc_t x2) = t_cm (tc_t x) ->
+       commitsTo (t_h (tc_t x)) (Some b) h = true ->
+       SInv c (let t1 := tc_t x2 in
+             let ppr := mk_ref T_PREPREPARE c (t_h t1) v h in
+             let nv := MNV T_NEW_VIEW (c_inst c) (t_h t1) v (map fst (votes_of (tc_t x) v)) (my_sig c) ppr (my_sig c) (Some b) in
+             let t2 := store_pp v {| pe_ref := ppr; pe_snd := my_sig c; pe_blk := Some b |} t1 in
+             let x3 := if has_pp t1 v then x2 else tc_emit (OStore T_PREPREPARE (t_h t1) v h (c_me c)) x2 in
+             send_all c nv (tc_set_t t2 x3))).
+  { intros b h x2 I2 V2 Eh Ec Hc. cbn zeta. unfold send_all. apply SInv_emit.
+    set (x3 := if has_pp (tc_t x2) v then x2 else _).
+    assert (I3 : SInv c x3 /\ tc_t x3 = tc_t x2 /\ tc_v x3 = tc_v x2) by (subst x3; destruct (has_pp _ _); [auto|split; [apply SInv_emit; exact I2|split; reflexivity]]).
+    destruct I3 as (I3 & E3t & E3v). rewrite <- E3t. apply SInv_store_pp; [exact I3| |lia].
+    rewrite E3t. constructor; cbn [pe_ref pe_snd pe_blk mk_ref r_view r_type r_inst r_height r_hash my_sig s_ok s_id]; auto.
+    - rewrite Ec. symmetry; exact Hl.
+    - intros bb Ebb. inversion Ebb; subst. cbn [pe_ref mk_ref r_hash]. rewrite Eh. exact Hc. }
+  pose proof (latest_block_aux_spec (votes_of (tc_t x) v)) as LB. unfold latest_block.
+  destruct (latest_block_aux (votes_of (tc_t x) v)) as [[[vt p] b]|].
+  - destruct LB as (Hin & Ep & _). apply votes_of_In in Hin. destruct (si_vc _ _ I _ _ _ Hin) as (_ & _ & VS & BC).
+    rewrite Ep in BC. destruct (vs_proof _ _ _ _ _ VS p Ep) as [_ _ _ [_ Sh] _ _ _ _ _].
+    apply go_ok; auto. rewrite Sh. exact BC.
+  - destruct (ctx_ok wm shut _); cbn [negb]; [|exact I1].
+    apply go_ok; auto; [apply SInv_bump; exact I1|].
+    unfold commitsTo. cbn [b_height b_id]. rewrite !N.eqb_refl. reflexivity.
+Qed.
+
+Lemma check_elected_sinv x v : SInv c x -> leaderOf (t_cm (tc_t x)) v = c_me c -> SInv c (check_elected c wm shut x v).
+Proof.
+  intros I Hl. unfold check_elected. destruct (N.leb _ _); [exact I|].
+  destruct (votes_of (tc_t x) v) as [|e r] eqn:Ev; [exact I|].
+  destruct (isQ_ids _ _); [|exact I]. rewrite <- Ev. apply on_elected_sinv; assumption.
+Qed.
+
+Lemma handle_vc_sinv x vt b : SInv c x -> v_height vt = t_h (tc_t x) -> SInv c (handle_vc c wm shut x vt b).
+Proof.
+  intros I Hh. unfold handle_vc.
+  destruct (N.eqb_spec (leaderOf (t_cm (tc_t x)) (v_view vt)) (c_me c)) as [El|]; cbn [negb]; [|exact I].
+  destruct (N.ltb (v_view vt) (tc_v x)); [exact I|].
+  destruct (vote_valid _ _ _ _) eqn:Ev; cbn [negb]; [|exact I].
+  pose proof (vote_valid_sound _ _ _ _ Ev) as VS.
+  assert (A : vc_good c (tc_t x) (v_view vt) vt b -> SInv c (check_elected c wm shut
+      (tc_set_t (store_vc (v_view vt) vt b (tc_t x))
+         (if has_vc (tc_t x) (v_view vt) (s_id (v_snd vt)) then x
+          else tc_emit (OStore T_VIEW_CHANGE (t_h (tc_t x)) (v_view vt) 0 (s_id (v_snd vt))) x)) (v_view vt))).
+  { intro G. set (x0 := if has_vc _ _ _ then x else _).
+    assert (I0 : SInv c x0 /\ tc_t x0 = tc_t x) by (subst x0; destruct (has_vc _ _ _); [auto|split; [apply SInv_emit; exact I|reflexivity]]).
+    destruct I0 as [I0 E0]. apply check_elected_sinv.
+    - rewrite <- E0. apply SInv_store_vc; [exact I0|rewrite E0; exact G].
+    - cbn [tc_set_t tc_t]. destruct (store_vc_hc (v_view vt) vt b (tc_t x)) as [_ Ec]. rewrite Ec. exact El. }
+  destruct b as [bb|], (v_proof vt) as [p|] eqn:Ep; try exact I.
+  - destruct (commitsTo _ _ _) eqn:Ec; [|exact I]. apply A. unfold vc_good. rewrite Ep. rewrite Hh in Ec. auto.
+  - apply A. unfold vc_good. rewrite Ep. auto.
+Qed.
+
+Lemma handle_nv_sinv x nty ninst nh nvw vs s pp pps b :
+  SInv c x -> nh = t_h (tc_t x) -> s_id s <> c_me c -> SInv c (handle_nv c wm shut x nty ninst nh nvw vs s pp pps b).
+Proof.
+  intros I Hh Hme. unfold handle_nv.
+  destruct (N.ltb_spec nvw (tc_v x)) as [Hv|Hv]; [exact I|].
+  destruct (N.eqb nty T_NEW_VIEW); cbn [negb]; [|exact I].
+  destruct (s_ok s); cbn [negb]; [|exact I].
+  destruct (N.eqb_spec (s_id s) (leaderOf (t_cm (tc_t x)) nvw)) as [El|El]; cbn [negb]; [|exact I].
+  destruct (votes_ok _ _ _ _); cbn [negb]; [|exact I].
+  destruct (N.eqb_spec (r_view pp) nvw) as [Epv|Epv]; cbn [negb]; [|exact I].
+  destruct (N.eqb_spec (r_height pp) nh) as [Eph|Eph]; cbn [negb]; [|exact I].
+  destruct (forallb _ vs); cbn [negb]; [|exact I].
+  assert (C : (forall bb, b = Some bb -> commitsTo (t_h (tc_t x)) b (r_hash pp) = true) ->
+              SInv c (if negb (validate_pp c (tc_t x) pp pps) then x else
+                    match init_view nvw (tc_set_t (set_latest nvw (tc_t x)) x) with
+                    | None => tc_set_t (set_latest nvw (tc_t x)) x
+                    | Some x1 => process_pp c wm shut x1 pp pps b end)).
+  { intro Hb. destruct (validate_pp c (tc_t x) pp pps) eqn:Ev; cbn [negb]; [|exact I].
+    destruct (validate_pp_true _ _ _ _ Ev) as (V1 & V2 & V3 & V4 & V5).
+    unfold init_view. cbn [tc_set_t tc_v]. assert (N.ltb nvw (tc_v x) = false) as -> by (apply N.ltb_ge; exact Hv).
+    apply process_pp_sinv; cbn [tc_emit tc_set_v tc_set_t tc_t set_latest t_h t_cm]; auto.
+    - apply SInv_emit, SInv_set_v; [exact Hv|]. apply SInv_set_latest. exact I.
+    - congruence.
+    - rewrite V5, Epv, <- El. exact Hme. }
+  destruct (latest_vote vs) as [lv|].
+  - destruct (v_proof lv) as [p|]; [|exact I].
+    destruct (commitsTo nh b (r_hash (pf_ppref p))) eqn:Ec; cbn [negb]; [|exact I].
+    destruct (N.eqb_spec (r_hash pp) (r_hash (pf_ppref p))) as [Eh|]; cbn [negb]; [|exact I].
+    apply C. intros bb _. rewrite Eh, <- Hh. exact Ec.
+  - destruct (ctx_ok wm shut _); cbn [negb]; [|exact I].
+    destruct (validProposal _ _ _ _) eqn:Evp; cbn [negb]; [|exact I].
+    apply C. rewrite <- Hh, <- Eph. apply (validProposal_commits _ _ _ _ Evp).
+Qed.
+End StorageInvProofs.
